@@ -78,6 +78,9 @@ def gen_history(st):
             opts["window"] = 1 + rng.below(8)
         if rng.below(4) == 0:
             opts["penalty"] = rng.choice([0.1, 0.5, 1.0])
+        minlen_all = min(len(x) for d in data for x in d["series"])
+        if rng.below(5) == 0 and minlen_all >= 2:
+            opts["psi"] = 1 + rng.below(min(2, minlen_all - 1))      # psi-relaxation, within every series
         if rng.below(3) == 0:
             opts["use_c"] = True
         elif rng.below(2):
@@ -217,7 +220,8 @@ def check_post(res, model, dat, spec, ndim, mon):
     for c, members in clusters.items():
         for i in members:
             s = dat["series"][int(i)]
-            ds = [dtw_ref.distance(s, m, window=opts.get("window"), penalty=opts.get("penalty", 0.0), ndim=ndim) for m in refm]
+            p_ = int(opts.get("psi", 0) or 0)
+            ds = [dtw_ref.distance(s, m, window=opts.get("window"), penalty=opts.get("penalty", 0.0), psi=(p_, p_, p_, p_), ndim=ndim) for m in refm]
             best = min(ds)
             if ds[c] > best * (1 + 1e-9) + 1e-12:
                 return {"class": "not-nearest-mean", "detail": "series %d is in cluster %d at reference distance %r but mean %d is at %r" % (i, c, ds[c], ds.index(best), best)}
